@@ -170,6 +170,14 @@ def run(ctx):
         res.check(got == srcs, "C15-R3", "version-string:%s" % fname.split("::")[-1], f.loc, "built from %s in that order" % [s.split("::get")[-1] for s in srcs],
                   "%s is built from %s, expected %s" % (fname, got, srcs))
 
+    # the TECMP payload object the converters read from holds the frame's own bytes at their full length (C04-R6, shared)
+    from rules.c04 import rule_reported_length
+    tmp = Result("C15")
+    rule_reported_length(fb, tmp, "C15-R3")
+    for o in tmp.obligations:
+        if o["key"].startswith("TECMP::Payload"):
+            res.check(o["ok"], "C15-R3", "payload-object:" + o["key"], o["loc"], o["detail"], o["detail"])
+
     # ---- R7 converters of supported kinds produce a packet on every path (rejecting is the decoder's job)
     for fname in sorted(spec["tecmp_payload"]):
         f = fb.fn(fname)
@@ -322,6 +330,36 @@ def run(ctx):
                   "header handed out only under size >= %d + announced payload length" % hsz,
                   "GetHeader accepts a frame whose announced payload length is only bounded by size - %s (the TECMP header takes %d bytes): a frame cut "
                   "short by up to %d bytes still yields packets" % (best if best is not None else "nothing", hsz, hsz))
+        # ... and under nothing stricter: a frame that ends exactly with its announced payload is complete
+        res.check(best is None or best <= hsz, "C15-R6", "GetHeader:complete-frame-accepted@%s" % (r.get("loc") or "").split(":", 1)[-1], r.get("loc"),
+                  "a frame of exactly %d + announced length bytes is accepted" % hsz,
+                  "GetHeader demands size >= %s + announced payload length where the TECMP header takes %d bytes: a frame that ends exactly with its "
+                  "payload yields no packet" % (best, hsz))
+    # ---- R4c a field shorter than the integer it is read into: the bytes the copy does not reach are zero (the value is the field's, not
+    # the field's plus whatever the local started with)
+    for f in fb.all_functions():
+        if not (f.rec or "").startswith("TECMP::") or not f.cfg_raw:
+            continue
+        for c in f.calls():
+            ca = facts.copy_args(c)
+            if not ca:
+                continue
+            d0 = strip_all_casts(ca[0])
+            while d0.get("k") == "cast":
+                d0 = d0["e"]
+            if not (d0.get("k") == "un" and d0.get("op") == "&"):
+                continue
+            tgt = strip_all_casts(d0["e"])
+            tt = tgt.get("t") or {}
+            nbytes = const_value(ca[2]) if ca[2] is not None else None
+            if tgt.get("k") == "ref" and tgt.get("dk") == "local" and tt.get("k") == "int" and nbytes is not None and tt.get("bits") and nbytes * 8 < tt["bits"]:
+                inits = [v.get("init") for n2 in f.nodes() if n2.get("k") == "decl" for v in n2.get("vars", []) if v.get("decl") == tgt["decl"]]
+                zero = len(inits) == 1 and isinstance(inits[0], dict) and const_value(strip_all_casts(inits[0])) == 0 and \
+                    not any(n2.get("k") in ("assign", "cassign") and lvalue_root(n2["l"]) == tgt["decl"] for n2 in f.nodes())
+                res.check(zero, "C15-R4", "%s:partial-read-into-zero:%s" % (f.name, tgt.get("name")), c.get("loc"),
+                          "%d of %d bytes are copied into `%s`, which starts as 0" % (nbytes, tt["bits"] // 8, tgt.get("name")),
+                          "%s copies %d bytes of a field into the %d-byte `%s`, which does not start as 0: the bytes the copy does not reach become part of "
+                          "the value" % (f.name, nbytes, tt["bits"] // 8, tgt.get("name")))
     # ---- R4b position of the trailing checksum: right behind the announced data bytes
     from rules.decoder_rules import _linear
     for cls, lengetter in (("TECMP::LinPayload", "getDataLength"), ("TECMP::CanPayload", "getDlc")):
